@@ -101,6 +101,8 @@ MUTANTS = [
     ("teed-log-goes-nowhere", "utils/output_handler.py",
      "            if self._file is None:\n                self._file = open(self._output_path, \"wb\")\n            return subprocess.PIPE\n",
      "            if self._file is None:\n                self._file = open(\"/dev/null\", \"wb\")\n            return subprocess.PIPE\n", ["C10"]),
+    ("revert-D34-valueerror-at-launch", "execution/ops/run_task_executable.py",
+     "        except (OSError, ValueError) as ex:\n", "        except OSError as ex:\n", ["C03", "C09"]),
     ("loader-no-dup-check", "parsing/task_index.py",
      "                    if dep_identifier in task_deps_set:\n", "                    if dep_identifier in task_deps_set and len(task_deps) > 2:\n", ["C14"]),
 ]
